@@ -4,9 +4,13 @@ import GrVerif.Model.Pass
 # C08 — shaping is a pure function of its arguments (history-independent)   (partial)
 
 Two things carry this property in the code and both are modelled:
-* the shaping pipeline itself keeps all of its state in the segment it is building (`Model/Pass.lean`: `shape` is a
-  function of the font tables and the text – it has no access to anything else, so in the model the statement holds by
-  construction; the model is tied to the code by the whole-pipeline correspondence of C06);
+* the shaping pipeline itself keeps all of its state in the segment it is building (`Model/Pass.lean`: `shape` is a Lean
+  function of the font tables and the text – it has no access to anything else, so in the model there is nothing to
+  prove; what ties that to the code is the whole-pipeline correspondence of C06, which runs the engine on one face for
+  many texts in a row and compares each result with the model's);
+* the hinted-advance cache of a `gr_font` (`Font::m_advances`): `hinted_advance_history_independent` – after any history
+  of requests `Font::advance(gid)` answers with the application callback's value, as on a fresh font; the model is run
+  against `Font::advance` itself (values and the exact sequence of callback calls);
 * the one piece of face state that shaping does write – the lazily filled glyph cache – is history-independent:
   `glyph_cache_history_independent` – after ANY sequence of earlier glyph requests a request returns exactly what the
   immutable tables say, the same as on a preloaded face.
@@ -28,10 +32,28 @@ theorem glyph_is_what_the_tables_say {G : Type} (load : Nat → Option G) (n : N
     (hwf : ∀ g, g < n → (load g).isSome) (hfull : c.loader = true ∨ ∀ g, g < n → (c.cache.getD g none).isSome) (hg : gid < n) :
     (glyph load c gid).1 = load gid := glyph_value load n c gid h hwf hfull hg
 
-/-- the shaping model has no hidden state: equal arguments, equal segments -/
-theorem shape_is_a_function (font : Pass.Font) (text : List Nat) (fuel : Nat) :
-    Pass.shape font text fuel = Pass.shape font text fuel := rfl
+/-- **hinted-advance cache.** On a hinted font, whatever requests were made before (`hist`, by earlier segments, slot
+queries or justification), `Font::advance(gid)` answers with the application's value for that glyph – the same as the very
+first request on a fresh font. -/
+theorem hinted_advance_history_independent {V : Type} [DecidableEq V] (sent : V) (f : Nat → V) (n : Nat) (hist : List Nat)
+    (hh : ∀ g ∈ hist, g < n) (gid : Nat) (hg : gid < n) :
+    (advance sent f (advRun sent f (advInit sent n) hist).2 gid).map (·.1) = some (f gid) ∧
+    (advance sent f (advInit sent n) gid).map (·.1) = some (f gid) := by
+  have h0 := advInit_ok sent f n
+  have hl0 : (advInit sent n).length = n := by simp [advInit]
+  obtain ⟨_, h1, h2⟩ := advRun_values sent f hist (advInit sent n) h0 (fun g hg' => by rw [hl0]; exact hh g hg')
+  obtain ⟨c', called, e, _⟩ := advance_spec sent f _ gid h1 (by rw [h2, hl0]; exact hg)
+  obtain ⟨c'', called', e', _⟩ := advance_spec sent f _ gid h0 (by rw [hl0]; exact hg)
+  rw [e, e']
+  exact ⟨rfl, rfl⟩
 
+/-- every answer in a history is the callback's value -/
+theorem hinted_advance_values {V : Type} [DecidableEq V] (sent : V) (f : Nat → V) (n : Nat) (ops : List Nat)
+    (hh : ∀ g ∈ ops, g < n) :
+    (advRun sent f (advInit sent n) ops).1.map (Option.map Prod.fst) = ops.map (fun g => some (f g)) :=
+  (advRun_values sent f ops (advInit sent n) (advInit_ok sent f n) (fun g hg => by simp [advInit]; exact hh g hg)).1
+
+example : (advRun (-1 : Int) (fun g => (g : Int) * 3) (advInit (-1) 4) [2, 2, 1]).1 = [some (6, true), some (6, false), some (3, true)] := by decide
 example : (glyph (fun g => some (g * 10)) (lazy 4) 2).1 = some 20 := by decide
 example : (glyph (fun g => some (g * 10)) ([3, 1, 3].foldl (fun c g => (glyph (fun g => some (g * 10)) c g).2) (lazy 4)) 2).1 = some 20 := by decide
 
